@@ -73,7 +73,7 @@ class C17(Prop):
     ASSUMPTIONS = ['names contain no double quote, percent sign or newline (EDIF string syntax)',
                    "a scalar net whose name looks like a bus bit (x[3]) is re-read as bit 3 of bus x: "
                    "ambiguity of the EDIF bus naming convention, recorded as known finding"]
-    N = {"quick": 2400, "thorough": 40000}
+    N = {"quick": 6400, "thorough": 80000}
     CASE_TIMEOUT_S = 60
 
     def strategy(self, tier):
